@@ -610,7 +610,12 @@ func valueLabel(v ssa.Value) string {
 	case *ssa.Slice:
 		return valueLabel(x.X) + "[:]"
 	case *ssa.Const:
-		return x.String()
+		if x.Value != nil {
+			return x.Value.ExactString()
+		}
+		return "nil"
+	case *ssa.BinOp:
+		return valueLabel(x.X) + x.Op.String() + valueLabel(x.Y)
 	}
 	return "?"
 }
